@@ -55,6 +55,9 @@ type PFOp struct {
 
 var mutKinds = []string{"flipbit", "drop", "dup", "swap", "tohash", "nil", "truncate", "extend", "root", "version", "otherkey", "othertree", "replay", "empty", "cutentry", "growentry", "leafvalue", "dropleaf", "fullenc", "fullenc", "fullenc", "inlineleaf", "inlineleaf"}
 
+// (appended later: drawn by the generator through a PRNG of its own so that earlier scenarios keep their operators)
+var mutKindsLate = []string{"emptytree"}
+
 func genMuts(r *core.Rand, maxCalls int) []Mut {
 	n := r.Pick([]int{0, 5, 2, 1})
 	var ms []Mut
@@ -152,6 +155,12 @@ func (ProofEngine) Generate(r *core.Rand, tier core.Tier) *core.Scenario {
 				}
 				op.Prefixes = append(op.Prefixes, hex.EncodeToString(src[:xr.Range(0, len(src))]))
 			}
+		}
+		if xr.Chance(1, 4) {
+			// A mutated proof verified directly / a client read through a lying peer, with one of
+			// the operators added after the main generator was fixed.
+			op = PFOp{K: []string{"vget", "cget"}[xr.Intn(2)], Key: xr.Intn(nk), Derive: xr.Pick([]int{6, 1, 1, 1, 1}), Ver: uint16(xr.Intn(2)), Siblings: xr.Bool(),
+				Muts: []Mut{{Kind: mutKindsLate[xr.Intn(len(mutKindsLate))], A: xr.Intn(1 << 16), B: xr.Intn(1 << 16)}}}
 		}
 		pos := xr.Intn(len(sc.Ops) + 1)
 		sc.Ops = append(sc.Ops, nil)
@@ -298,6 +307,19 @@ func (b *byzSyncer) mutate(m Mut, honest *syncer.ProofResponse, alt func(kind st
 		}
 	case "empty":
 		r.Proof.Entries = nil
+	case "emptytree":
+		// The honest proof of another, empty tree with the root field rewritten: a single entry
+		// that stands for the empty subtree (nil, or a hash entry of the empty hash).
+		var eh hash.Hash
+		eh.Empty()
+		switch m.B % 3 {
+		case 0:
+			r.Proof.Entries = [][]byte{nil}
+		case 1:
+			r.Proof.Entries = [][]byte{append([]byte{0x02}, eh[:]...)}
+		default:
+			r.Proof.Entries = [][]byte{nil, nil}
+		}
 	case "cutentry":
 		if n > 0 {
 			i := pick(m.A)
